@@ -86,10 +86,54 @@ def alias_hyps(ps):
 
 def fromstring_summary(ctx):
     def f(I, args, ins):
-        # Goldilocks::fromString(std::string const&, int) -> Element : the residue of the parsed integer, opaque here (C15)
+        # Goldilocks::fromString(std::string const&, int radix) -> Element : the residue of the integer the string denotes in
+        # that radix, opaque here (C15); the decimal reading is the one mulScalar promises
         p = args[0]
-        return FV(Poly.var('FromString(%s)' % p.reg.name), 'u64')
+        radix = args[1] if len(args) > 1 else 10
+        if radix == 10:
+            return FV(Poly.var('FromString(%s)' % p.reg.name), 'u64')
+        return FV(Poly.var('FromString_radix_%s(%s)' % (radix, p.reg.name)), 'u64')
     return f
+
+
+def string_scalar_summaries(mod):
+    """a decimal string turned into a field element through GMP directly (mpz_class(str[, base]) + fromScalar): the element is
+    the decimal reading only if the string is parsed in base 10 (gmpxx's default base 0 auto-detects 0x / 0 / 0b prefixes)"""
+    S = {}
+    store = {}
+
+    def c_str(I, args, ins):
+        return args[0]
+
+    def init_set_str(I, args, ins):
+        rop, sp, base = args[0], args[1], args[2]
+        if not isinstance(sp, Ptr):
+            raise Incomplete('mpz initialised from a string that is not a parameter')
+        store[(rop.reg, rop.off)] = (sp.reg.name, base)
+        return 0
+
+    def from_scalar(I, args, ins):
+        z = args[-1]
+        ent = store.get((z.reg, z.off)) if isinstance(z, Ptr) else None
+        if ent is None:
+            raise Incomplete('fromScalar of an integer that does not come from the string operand')
+        rn, base = ent
+        v = FV(Poly.var('FromString(%s)' % rn if base == 10 else 'FromString_base_%s(%s)' % (base, rn)), 'u64')
+        if len(args) == 2 and isinstance(args[0], Ptr):
+            I.store_cell(args[0], v, 8)
+            return None
+        return v
+    for pat, fn in ((r'^std::__cxx11::basic_string<char.*>::c_str\(\) const$', c_str), (r'^std::__cxx11::basic_string<char.*>::data\(\) const$', c_str),
+                    (r'^Goldilocks::fromScalar\(', from_scalar)):
+        for n in mod.find_re(pat):
+            S[n] = fn
+    for mangled in ('_ZNKSt7__cxx1112basic_stringIcSt11char_traitsIcESaIcEE5c_strEv', '_ZNKSt7__cxx1112basic_stringIcSt11char_traitsIcESaIcEE4dataEv'):
+        S[mangled] = c_str
+    S['__gmpz_init_set_str'] = init_set_str
+    S['__gmpz_set_str'] = init_set_str
+    S['__gmpz_clear'] = lambda I, a, i: None
+    S['__gmpz_init'] = lambda I, a, i: None
+    return S
 
 
 def check_ring(rep, mod, cfg, name):
@@ -105,6 +149,8 @@ def check_ring(rep, mod, cfg, name):
             summ[mod.find('Goldilocks::fromString(std::__cxx11::basic_string<char, std::char_traits<char>, std::allocator<char> > const&, int)')] = fromstring_summary(ctx)
         except KeyError:
             pass
+        if any(kind(p) == 'string' for p in ps0):
+            summ.update(string_scalar_summaries(mod))
         ext = {p.name: 24 for p in ps0 if kind(p) == 'ext'}
         elem = {p.name: 'int' for p in ps0 if kind(p) == 'intref'}
         elem.update({p.name: 'any' for p in ps0 if kind(p) == 'string'})
